@@ -1,5 +1,7 @@
 import PC.Tie.Restart
 import PC.Spec.Pure
+import PC.Proofs.SupArms
+import PC.Spec.SupSpec
 /-! C02 — restart policy: decision table and back-off (pure part; the loop is in `Sup`). -/
 namespace PC.Props.C02
 open PC.Restart PC.Spec
@@ -65,6 +67,90 @@ theorem backoff_ge_one (b : Int) : getBackoffSeconds b = max 1 b := by
 
 theorem backoff_ge_one_src (b : Int) : PC.Gen.Restart.getBackoffSeconds b = max 1 b := by
   rw [PC.Tie.Restart.getBackoffSeconds_eq]; exact backoff_ge_one b
+
+/-! ### The restart loop of the supervisor model -/
+section Loop
+open PC.Sup
+
+/-- After an exit the goroutine goes to the back-off wait exactly when `isRestartable` says so
+    (evaluated on the policy, `max_restarts`, the restart count, the exit code and the stop flag as
+    they are at that instant); otherwise the process ends. -/
+theorem relaunch_iff (s : Sys) (t : Tid) (i : IId) (ht : t < s.threads.length) :
+    ((armRunExited s t i).thr t).pc = .backoff ↔
+      isRestartable (policyString (s.icfg i).policy) (s.icfg i).maxRestarts (s.ps (s.nameOf i)).restarts
+        (s.ps (s.nameOf i)).exit (s.inst i).isStopped = true := by
+  unfold armRunExited decideRestart
+  simp only [Sys.icfg]
+  by_cases hr : isRestartable (policyString (s.cfg (s.nameOf i)).policy) (s.cfg (s.nameOf i)).maxRestarts
+      (s.ps (s.nameOf i)).restarts (s.ps (s.nameOf i)).exit (s.inst i).isStopped = true
+  · simp only [hr, ↓reduceIte, iff_true]
+    rw [thr_setPc_self]
+    simpa [setState] using ht
+  · simp only [hr, Bool.false_eq_true, ↓reduceIte, iff_false]
+    rw [thr_setPc_self]
+    · simp
+    · simpa [onProcessEnd, setState] using ht
+
+/-- ... and therefore exactly when the availability policy demands it (`restartable_spec`). -/
+theorem relaunch_iff_policy (s : Sys) (t : Tid) (i : IId) (ht : t < s.threads.length) :
+    ((armRunExited s t i).thr t).pc = .backoff ↔
+      restartWanted (policyString (s.icfg i).policy) (s.icfg i).maxRestarts (s.ps (s.nameOf i)).restarts
+        (s.ps (s.nameOf i)).exit (s.inst i).isStopped := by
+  rw [relaunch_iff s t i ht, restartable_spec]
+
+/-- The back-off wait ends the loop without a relaunch when the run context was cancelled (a stop
+    or shutdown was requested); otherwise it goes on to the relaunch. -/
+theorem backoff_cancelled_no_relaunch (s : Sys) (t : Tid) (i : IId) (ht : t < s.threads.length) :
+    ((armBackoff s t i).thr t).pc =
+      (if (s.inst i).runCancelled then .procRan ((onProcessEnd s i .completed).ps ((onProcessEnd s i .completed).nameOf i)).exit
+       else .backoffElapsed) := by
+  unfold armBackoff
+  split
+  · rw [thr_setPc_self]; simpa [onProcessEnd, setState] using ht
+  · rw [thr_setPc_self _ _ _ ht]
+
+/-- A stop request (`StopProcess`, shutdown) cancels the run context before its first scheduling
+    point; an internal stop (failed readiness probe) does not, so that the process is restarted. -/
+theorem stop_cancels_run (s : Sys) (t : Tid) (i : IId) (k : StopK) (hi : i < s.insts.length) :
+    ((gotoStop s t i true k).inst i).runCancelled = true := by
+  unfold gotoStop
+  simp only [setPc_inst]
+  rw [inst_setInst _ _ _ _ hi]; simp
+
+theorem internal_stop_keeps_loop (s : Sys) (t : Tid) (i : IId) (k : StopK) (hi : i < s.insts.length) :
+    ((gotoStop s t i false k).inst i).runCancelled = (s.inst i).runCancelled := by
+  unfold gotoStop
+  simp only [setPc_inst]
+  rw [inst_setInst _ _ _ _ hi]; simp
+
+/-- Full statement "no launch once a stop of that process has been served" — false at fine
+    granularity (window W3: the goroutine sits at `backoff:elapsed` while `StopProcess` returns). -/
+def C02_noLaunchAfterStop_full : Prop :=
+  ∀ (g : Gran) (cfgs : List Cfg) (tr : List Choice) (id : Nat), noStartCalls tr = true →
+    launchAfterRet id (runTrace (init g false cfgs) tr).2 = false
+
+def w3 : List Choice :=
+  [.call 0 .runMain, .run 0, .run 1, .run 1, .run 1, .exit 0 1, .run 1, .run 1, .run 1, .call 1 (.stop 0),
+   .run 2, .run 2, .run 2, .run 1]
+
+theorem C02_noLaunchAfterStop_full_fails : ¬ C02_noLaunchAfterStop_full := by
+  intro h
+  have := h .fine [{ policy := .always }] w3 1 (by decide)
+  revert this
+  decide
+
+/-- the same history at coarse granularity: the stop wins, nothing is relaunched -/
+example : launchAfterRet 1 (runTrace (init .coarse false [{ policy := .always }])
+    [.call 0 .runMain, .run 0, .run 1, .exit 0 1, .run 1, .call 1 (.stop 0), .run 2, .run 1]).2 = false := by decide
+
+/-- restart count = number of relaunches on a never-stopped process (3 exits, always) -/
+def exits3 : List Choice :=
+  [.call 0 .runMain, .run 0, .run 1, .exit 0 1, .run 1, .run 1, .exit 0 0, .run 1, .run 1, .exit 0 2, .run 1, .run 1]
+
+example : ((runTrace (init .coarse false [{ policy := .always }]) exits3).1.ps 0).restarts = 3 ∧
+    ((runTrace (init .coarse false [{ policy := .always }]) exits3).2.filter isLaunch).length = 4 := by decide
+
+end Loop
 
 example : isRestartable "on_failure" 2 1 3 false = true := by decide
 example : isRestartable "on_failure" 2 2 3 false = false := by decide
